@@ -15,9 +15,10 @@ var c20Programs = []string{
 	"var x = 1 + 2 * 3\nprint x == 7 and \"seven\" or \"other\"\n",
 	"def blk \"nm\" {\n f = -1 <= 2\n def in {\n g = f != true\n}\n}\nbind blk:first -> slice\n",
 	"var a = 10\neval a = a / 3 - 1\nprint not a >= 2\nprint (a)\n",
-	"print 1 +\n",               // rejected
-	"def t {\n x = y\n}\n",       // runtime error
+	"print 1 +\n",          // rejected
+	"def t {\n x = y\n}\n", // runtime error
 	"print \"a\" + 1.5e1\nprint 0x1F;print nil\n",
+	"eval a eval b\nprint 1 +\nvar = 2 print )\n", // rejected, several faulty statements
 }
 
 // c20Separator returns 1..2 symbolic bytes constrained to be layout per the
@@ -46,15 +47,31 @@ func c20Separator(name string) string {
 
 type c20Compiled struct {
 	Err    error
+	Diags  []string // diagnostics without their positions
 	Code   []byte
 	Consts []any
 	Run    realRun
 }
 
+// c20Diags strips 'line L:C: ' from each diagnostic line of a log.
+func c20Diags(log string) []string {
+	var out []string
+	for _, l := range strings.Split(log, "\n") {
+		if !strings.HasPrefix(l, "line ") {
+			continue
+		}
+		if i := strings.Index(l, ": "); i >= 0 {
+			l = l[i+2:]
+		}
+		out = append(out, l)
+	}
+	return out
+}
+
 func c20Compile(src string) c20Compiled {
 	out, log := &symio.Writer{}, &symio.Writer{}
 	p, err := bcl.Parse([]byte(src), "src", bcl.OptOutput(out), bcl.OptLogger(log))
-	c := c20Compiled{Err: err}
+	c := c20Compiled{Err: err, Diags: c20Diags(log.String())}
 	if err == nil {
 		c.Code = bcl.VerifCode(p)
 		c.Consts = bcl.VerifConsts(p)
@@ -66,6 +83,14 @@ func c20Compile(src string) c20Compiled {
 func c20Same(a, b c20Compiled) {
 	verif.Assert((a.Err == nil) == (b.Err == nil), "same acceptance")
 	if a.Err != nil || b.Err != nil {
+		// rejected: the same diagnostics; only their positions differ
+		same := len(a.Diags) == len(b.Diags)
+		if same {
+			for i := range a.Diags {
+				same = same && a.Diags[i] == b.Diags[i]
+			}
+		}
+		verif.Assert(same, "same diagnostics apart from positions")
 		verif.Reach("rejected")
 		return
 	}
@@ -187,8 +212,33 @@ func C20_Parens() {
 		{"print -1001", "print -(1001)"},
 		{"print (1001 = 1002)", "print 1001 = 1002"}, // both rejected
 	}
-	pr := pairs[verif.Choice("pair", len(pairs))]
-	c20Same(c20Compile(pr[0]), c20Compile(pr[1]))
+	i := verif.Choice("pair", len(pairs))
+	pr := pairs[i]
+	a, b := c20Compile(pr[0]), c20Compile(pr[1])
+	if i == 8 {
+		// an assignment to a literal is no expression, parenthesised or not:
+		// both are rejected (for different reasons)
+		verif.Assert(a.Err != nil && b.Err != nil, "both rejected")
+		verif.Reach("rejected")
+		return
+	}
+	c20Same(a, b)
+}
+
+// C20_PrefixLiteral: CONCRETE INSTANCES - a prefix operator applied to a
+// literal at the limits of its range means the same with the literal in
+// parentheses (both accepted with the same constant, or both rejected).
+func C20_PrefixLiteral() {
+	lits := []string{
+		"0", "1", "9223372036854775806", "9223372036854775807", "9223372036854775808", "9223372036854775809",
+		"18446744073709551615", "18446744073709551616", "0x7fffffffffffffff", "0x8000000000000000", "0xffffffffffffffff",
+		"0777777777777777777777", "01000000000000000000000", "1.7976931348623157e308", "1e309", "0.0", "4.9e-324", "1e-400",
+		"\"s\"", "true", "nil",
+	}
+	lit := lits[verif.Choice("lit", len(lits))]
+	op := []string{"-", "- -", "not ", "-  ", "1 - ", "1--"}[verif.Choice("op", 6)]
+	c20Same(c20Compile("print "+op+lit), c20Compile("print "+op+"("+lit+")"))
+	c20Same(c20Compile("var x = "+op+lit+"\nprint x"), c20Compile("var x = ("+op+"(("+lit+")))\nprint x"))
 }
 
 // C20_StringContent: nothing inside a string literal is layout: the bytes
@@ -227,15 +277,18 @@ func C20_CommentEnd() {
 	c20Same(c20Compile("print 1 print 3"), c20Compile(src))
 }
 
-// C20_CommentSplit: a comment whose terminating CR or LF is the first byte of
-// a read (ParseFile) ends there as well.
+// C20_CommentSplit: a comment cut by a read boundary (ParseFile) at any place,
+// its terminating CR or LF being the first byte of a read included, ends at
+// that CR or LF and nowhere else.
 func C20_CommentSplit() {
 	eol := verif.Byte("eol")
 	verif.Assume(eol == '\n' || eol == '\r')
 	c := verif.Bytes("c", 2)
 	verif.Assume(c[0] != '\n' && c[0] != '\r' && c[1] != '\n' && c[1] != '\r')
 	src := "print 1 #" + string(c) + string([]byte{eol}) + "print 2\nprint 3\n"
-	cut := len("print 1 #") + 2
+	// the read boundary: right after '#', inside the comment, before the end
+	// of line, after it
+	cut := len("print 1 #") + verif.Choice("cut", 4)
 	w := c07Whole([]byte(src))
 	f := c07File(&symio.File{Data: []byte(src), Script: []symio.Step{{N: cut}}, FileName: "file"})
 	c07Compare(w, f)
